@@ -8,6 +8,7 @@ REPO = os.environ.get('VERIF_REPO', '/repo')
 BUILD = os.environ.get('VERIF_BUILD', os.path.join(VERIF, 'build'))
 NPROC = int(os.environ.get('VERIF_JOBS', str(os.cpu_count() or 8)))
 GUARD = 'PARMCB_VERIF'
+OUT = os.environ.get('VERIF_OUT', VERIF)   # where evidence/ and replays/ go (redirected for mutant self-tests)
 
 
 class HarnessFailure(Exception):
@@ -55,17 +56,22 @@ def tree_hash():
     return _tree_hash
 
 
-_harness_hash = None
+_harness_hash = {}
 
 
-def harness_hash():
-    global _harness_hash
-    if _harness_hash is None:
+def harness_hash(harness=None):
+    """content hash of one harness source plus the shared headers (common/, tbbshim/) and preload helpers"""
+    if harness not in _harness_hash:
         h = hashlib.sha1()
-        _hash_dir(h, VERIF, 'harness')
+        _hash_dir(h, VERIF, 'harness/common')
+        _hash_dir(h, VERIF, 'harness/tbbshim')
         _hash_dir(h, VERIF, 'preload')
-        _harness_hash = h.hexdigest()[:12]
-    return _harness_hash
+        if harness:
+            _hash_dir(h, VERIF, 'harness/%s.cpp' % harness)
+        else:
+            _hash_dir(h, VERIF, 'harness')
+        _harness_hash[harness] = h.hexdigest()[:12]
+    return _harness_hash[harness]
 
 
 def tree_dir():
@@ -154,7 +160,7 @@ FLAVOURS = {
 
 
 def binary_path(harness, flavour):
-    return os.path.join(tree_dir(), flavour, '%s-%s' % (harness, harness_hash()))
+    return os.path.join(tree_dir(), flavour, '%s-%s' % (harness, harness_hash(harness)))
 
 
 def build(harness, flavour, extra_flags=''):
@@ -189,7 +195,7 @@ def build(harness, flavour, extra_flags=''):
 
 
 def build_c(name, src_rel, flags):
-    out = os.path.join(tree_dir(), 'aux', '%s-%s' % (name, harness_hash()))
+    out = os.path.join(tree_dir(), 'aux', '%s-%s' % (name, harness_hash(None)))
     with FileLock(out + '.lock'):
         if os.path.exists(out):
             return out
@@ -407,7 +413,7 @@ def run_chunk(agg, cmd_prefix, mode, seed, a, b, opts, env, timeout, source, max
             if err and SAN_RE.search(err):
                 with agg.lock:
                     for rep in classify_stderr(err):
-                        rep['idx'] = last_e
+                        rep['idx'] = last_e; rep['source'] = source; rep['chunk'] = [cur, b]
                         agg.sanitizer_reports.append(rep)
             return
         failing = last_b if (last_b is not None and last_b != last_e) else None
@@ -506,7 +512,7 @@ class Verdict:
     def finish(self, coverage, assumptions, level='exploration', replay_extra=None):
         wall = time.time() - self.t0
         nviol = sum(len(v) for v in self.new.values())
-        os.makedirs(os.path.join(VERIF, 'evidence'), exist_ok=True)
+        os.makedirs(os.path.join(OUT, 'evidence'), exist_ok=True)
         cov = dict(coverage)
         cov['known_findings_hit'] = {k: v[1] for k, v in self.known.items()}
         cov['new_violation_keys'] = {k: len(v) for k, v in self.new.items()}
@@ -518,7 +524,7 @@ class Verdict:
                   wall_s=round(wall, 2), violations=nviol)
         if self.failures:
             ev['coverage']['harness_failures'] = self.failures[:5]
-        with open(os.path.join(VERIF, 'evidence', self.prop + '.json'), 'w') as f:
+        with open(os.path.join(OUT, 'evidence', self.prop + '.json'), 'w') as f:
             json.dump(ev, f, indent=1, sort_keys=True, default=str)
         for k, (f, n) in self.known.items():
             print('KNOWN-FINDING: property=%s %s (observed %d times in this run)' % (self.prop, f.get('what', k), n))
@@ -532,7 +538,7 @@ class Verdict:
         rc = 0
         for key, vs in self.new.items():
             rc = 1
-            d = os.path.join(VERIF, 'replays', self.prop)
+            d = os.path.join(OUT, 'replays', self.prop)
             os.makedirs(d, exist_ok=True)
             for v in vs[:2]:
                 path = os.path.join(d, '%s-%s.json' % (safe(key), v.get('idx')))
